@@ -505,8 +505,9 @@ class JmaLoop(LoopInv):
 
 def _directed_jma():
     loc = dict(lat='35.9043', lon='139.0005', depth='11.1', mag='5.95')
-    recs = [dict(loc, t=[2017, 4, 22, 4, 42, '58.25']), dict(loc, t=[2019, 12, 31, 23, 59, '59.00']), dict(loc, lat='-42.5', lon='-179.95', t=[1969, 7, 20, 20, 17, '40.00']),
-            dict(loc, t=[2020, 2, 29, 0, 0, '0.50'], tz='+0000')]
+    # every record states its UTC offset (the writer of the oracle module would otherwise fill in +0900 without telling the oracle)
+    recs = [dict(loc, t=[2017, 4, 22, 4, 42, '58.25'], tz='+0900'), dict(loc, t=[2019, 12, 31, 23, 59, '59.00'], tz='+0900'),
+            dict(loc, lat='-42.5', lon='-179.95', t=[1969, 7, 20, 20, 17, '40.00'], tz='-0330'), dict(loc, t=[2020, 2, 29, 0, 0, '0.50'], tz='+0000')]
     return [('catalog_reader', dict(fmt='jma-csv', events=recs)), ('catalog_reader', dict(fmt='jma-csv', events=recs[:1])),
             ('catalog_reader', dict(fmt='jma-csv', events=recs, opts={'header': False}))]
 
